@@ -153,7 +153,7 @@ Proof.
   { rewrite forallb_map'. clear E1. induction vs as [|a vs IH]; [reflexivity|].
     cbn [forallb]. rewrite IH by (intros x Hx; apply Hvs; now right). f_equal.
     unfold csat. cbn [existsb]. rewrite lit_opp by (apply Hvs; now left).
-    rewrite lit_true_pos by assumption. now rewrite orb_false_r. }
+    rewrite (lit_true_pos t r) by assumption. now rewrite orb_false_r. }
   rewrite E1, E2. clear E1 E2 Hvs. generalize (t r) as b. intros b.
   induction vs as [|a vs IH]; cbn [existsb forallb].
   - destruct b; reflexivity.
@@ -163,3 +163,560 @@ Proof.
     + exact IH.
 Qed.
 
+
+Lemma igate_and l r : igate (KAnd l) r = (map Z.opp l ++ [r]) :: map (fun v => [v; - r]) l.
+Proof.
+  unfold igate, ints, kgate, gate_and. cbn [map]. rewrite map_app, !map_map. reflexivity.
+Qed.
+
+Lemma igate_or l r : igate (KOr l) r = (l ++ [- r]) :: map (fun v => [- v; r]) l.
+Proof.
+  unfold igate, ints, kgate, gate_or. cbn [map]. rewrite map_app, !map_map. cbn [map slit_int].
+  f_equal. f_equal. now rewrite map_id.
+Qed.
+
+Definition args_nz (k : key) : Prop := forall a, In a (kargs k) -> a <> 0.
+
+Lemma igate_sem k r t :
+  0 < r -> args_nz k -> sat t (igate k r) = Bool.eqb (t r) (keval k t).
+Proof.
+  intros Hr Hk. destruct k as [l|l|p q|p q|z].
+  - rewrite igate_and. now apply gate_and_sem.
+  - rewrite igate_or. now apply gate_or_sem.
+  - assert (Hp : p <> 0) by (apply Hk; cbn; auto). assert (Hq : q <> 0) by (apply Hk; cbn; auto).
+    unfold igate, ints, kgate, gate_if, keval, sat, csat. cbn [map slit_int forallb existsb].
+    rewrite ?(lit_opp t p), ?(lit_opp t q), ?(lit_true_neg t r), ?(lit_true_pos t r) by assumption.
+    destruct (lit_true t p), (lit_true t q), (t r); reflexivity.
+  - assert (Hp : p <> 0) by (apply Hk; cbn; auto). assert (Hq : q <> 0) by (apply Hk; cbn; auto).
+    unfold igate, ints, kgate, gate_iff, keval, sat, csat. cbn [map slit_int forallb existsb].
+    rewrite ?(lit_opp t p), ?(lit_opp t q), ?(lit_true_neg t r), ?(lit_true_pos t r) by assumption.
+    destruct (lit_true t p), (lit_true t q), (t r); reflexivity.
+  - assert (Hz : z <> 0) by (apply Hk; cbn; auto).
+    unfold igate, ints, kgate, gate_not, keval, sat, csat. cbn [map slit_int forallb existsb].
+    rewrite ?(lit_opp t z), ?(lit_true_neg t r), ?(lit_true_pos t r) by assumption.
+    destruct (lit_true t z), (t r); reflexivity.
+Qed.
+
+Lemma igate_lits k r c l :
+  In c (igate k r) -> In l c -> (l = r \/ l = - r) \/ (In l (kargs k) \/ In (- l) (kargs k)).
+Proof.
+  destruct k as [vs|vs|p q|p q|z].
+  - rewrite igate_and. cbn [kargs]. intros [Hc|Hc] Hl.
+    + subst c. apply in_app_or in Hl. destruct Hl as [Hl|[Hl|[]]]; [|left; left; congruence].
+      apply in_map_iff in Hl. destruct Hl as [a [E Ha]]. right. right. subst l. now rewrite Z.opp_involutive.
+    + apply in_map_iff in Hc. destruct Hc as [a [E Ha]]. subst c.
+      destruct Hl as [Hl|[Hl|[]]]; subst; auto.
+  - rewrite igate_or. cbn [kargs]. intros [Hc|Hc] Hl.
+    + subst c. apply in_app_or in Hl. destruct Hl as [Hl|[Hl|[]]]; auto.
+    + apply in_map_iff in Hc. destruct Hc as [a [E Ha]]. subst c.
+      destruct Hl as [Hl|[Hl|[]]]; subst; auto. right. right. now rewrite Z.opp_involutive.
+  - unfold igate, ints, kgate, gate_if. cbn [map slit_int kargs In].
+    intros Hc Hl. repeat (destruct Hc as [Hc|Hc]; [subst c; cbn [In] in Hl|]); try contradiction;
+      repeat (destruct Hl as [Hl|Hl]; [subst l; rewrite ?Z.opp_involutive; auto 6|]); contradiction.
+  - unfold igate, ints, kgate, gate_iff. cbn [map slit_int kargs In].
+    intros Hc Hl. repeat (destruct Hc as [Hc|Hc]; [subst c; cbn [In] in Hl|]); try contradiction;
+      repeat (destruct Hl as [Hl|Hl]; [subst l; rewrite ?Z.opp_involutive; auto 6|]); contradiction.
+  - unfold igate, ints, kgate, gate_not. cbn [map slit_int kargs In].
+    intros Hc Hl. repeat (destruct Hc as [Hc|Hc]; [subst c; cbn [In] in Hl|]); try contradiction;
+      repeat (destruct Hl as [Hl|Hl]; [subst l; rewrite ?Z.opp_involutive; auto 6|]); contradiction.
+Qed.
+
+(** [keval] reads only the arguments of the key *)
+Lemma keval_agree k t t' :
+  (forall a, In a (kargs k) -> lit_true t a = lit_true t' a) -> keval k t = keval k t'.
+Proof.
+  intros H. destruct k as [l|l|p q|p q|z]; cbn [keval kargs] in *.
+  - induction l as [|a l IH]; [reflexivity|]. cbn [forallb]. rewrite (H a) by now left.
+    f_equal. apply IH. intros x Hx. apply H. now right.
+  - induction l as [|a l IH]; [reflexivity|]. cbn [existsb]. rewrite (H a) by now left.
+    f_equal. apply IH. intros x Hx. apply H. now right.
+  - rewrite (H p), (H q) by (cbn; auto). reflexivity.
+  - rewrite (H p), (H q) by (cbn; auto). reflexivity.
+  - rewrite (H z) by (cbn; auto). reflexivity.
+Qed.
+
+Lemma lit_true_upd t v b a : Z.abs a <> v -> lit_true (upd t v b) a = lit_true t a.
+Proof.
+  intros H. unfold lit_true, upd. destruct (0 <? a) eqn:E.
+  - destruct (a =? v) eqn:E1; [lia|reflexivity].
+  - destruct (- a =? v) eqn:E1; [lia|reflexivity].
+Qed.
+
+(** * The cache as a definitional extension *)
+Definition args_ok (k : key) (v : Z) : Prop := forall a, In a (kargs k) -> a <> 0 /\ Z.abs a < v.
+
+Fixpoint wf (nv0 n : Z) (c : list (key * Z)) : Prop :=
+  match c with
+  | [] => n = nv0
+  | (k, v) :: c' => v = n - 1 /\ args_ok k v /\ wf nv0 (n - 1) c'
+  end.
+
+Fixpoint ext_of (c : list (key * Z)) (s : asg) : asg :=
+  match c with
+  | [] => s
+  | (k, v) :: c' => upd (ext_of c' s) v (keval k (ext_of c' s))
+  end.
+
+Fixpoint cls_of (c : list (key * Z)) : cnf :=
+  match c with
+  | [] => []
+  | (k, v) :: c' => cls_of c' ++ igate k v
+  end.
+
+Lemma wf_len nv0 c : forall n, wf nv0 n c -> n = nv0 + Z.of_nat (length c).
+Proof.
+  induction c as [|[k v] c IH]; intros n H; cbn [wf length] in *; [lia|].
+  destruct H as [_ [_ H]]. apply IH in H. lia.
+Qed.
+
+Lemma wf_in nv0 c : forall n k v, wf nv0 n c -> In (k, v) c -> nv0 <= v < n /\ args_ok k v.
+Proof.
+  induction c as [|[k' v'] c IH]; intros n k v H Hin; [destruct Hin|].
+  cbn [wf] in H. destruct H as [Hv [Ha H]]. pose proof (wf_len _ _ _ H) as L.
+  destruct Hin as [E|Hin].
+  - inversion E. subst. split; [lia|assumption].
+  - destruct (IH _ _ _ H Hin) as [R A]. split; [lia|assumption].
+Qed.
+
+Lemma defines_pointwise lo hi new e e' :
+  Defines lo hi new e -> (forall s w, e s w = e' s w) -> Defines lo hi new e'.
+Proof.
+  intros D H. constructor.
+  - apply (def_range _ _ _ _ D).
+  - apply (def_vars _ _ _ _ D).
+  - intros s. rewrite (def_sat _ _ _ _ D). split; intros G v Hv; [rewrite <- H|rewrite H]; now apply G.
+  - intros s v Hv. rewrite <- H. now apply (def_out _ _ _ _ D).
+  - intros s t A v Hv. rewrite <- !H. now apply (def_local _ _ _ _ D).
+Qed.
+
+Lemma igate_defines k v :
+  1 <= v -> args_ok k v ->
+  Defines (v - 1) v (igate k v) (fun s => upd s v (keval k s)).
+Proof.
+  intros Hv Hk.
+  assert (D : Defines (v - 1) (v - 1 + 1) (igate k v) (fun s => upd s (v - 1 + 1) (keval k s))).
+  { apply defines_gate.
+    - lia.
+    - intros c l Hc Hl. destruct (igate_lits _ _ _ _ Hc Hl) as [[E|E]|[E|E]]; try lia.
+      + apply Hk in E. lia.
+      + apply Hk in E. lia.
+    - intros s t A. apply keval_agree. intros a Ha. apply Hk in Ha.
+      apply (lit_true_agree (v - 1)); [assumption|lia].
+    - intros s. replace (v - 1 + 1) with v by lia. rewrite igate_sem; [|lia|intros a Ha; now apply Hk in Ha].
+      destruct (s v), (keval k s); cbn; split; congruence. }
+  replace (v - 1 + 1) with v in D by lia. exact D.
+Qed.
+
+Lemma wf_defines nv0 c : forall n,
+  1 <= nv0 -> wf nv0 n c -> Defines (nv0 - 1) (n - 1) (cls_of c) (ext_of c).
+Proof.
+  induction c as [|[k v] c IH]; intros n Hnv H; cbn [wf cls_of ext_of] in *.
+  - subst n. apply defines_nil. lia.
+  - destruct H as [Hv [Ha H]]. pose proof (wf_len _ _ _ H) as L.
+    specialize (IH _ Hnv H). subst v.
+    apply (defines_seq (nv0 - 1) (n - 1 - 1) (n - 1) (cls_of c) (igate k (n - 1)) (ext_of c)
+             (fun s => upd s (n - 1) (keval k s)) IH).
+    apply igate_defines; [lia|assumption].
+Qed.
+
+Lemma ext_of_out nv0 n c s w :
+  1 <= nv0 -> wf nv0 n c -> ~ (nv0 <= w < n) -> ext_of c s w = s w.
+Proof.
+  intros Hnv H Hw. apply (def_out _ _ _ _ (wf_defines _ _ _ Hnv H)). lia.
+Qed.
+
+Lemma wf_app_split nv0 pre c : forall m,
+  wf nv0 m (pre ++ c) -> wf nv0 (m - Z.of_nat (length pre)) c.
+Proof.
+  induction pre as [|[k v] pre IH]; intros m H; cbn [app length wf] in *.
+  - now replace (m - Z.of_nat 0) with m by lia.
+  - destruct H as [_ [_ H]]. apply IH in H.
+    now replace (m - Z.of_nat (S (length pre))) with (m - 1 - Z.of_nat (length pre)) by lia.
+Qed.
+
+Lemma ext_of_app nv0 pre c s w : forall m,
+  wf nv0 m (pre ++ c) -> w < m - Z.of_nat (length pre) ->
+  ext_of (pre ++ c) s w = ext_of c s w.
+Proof.
+  induction pre as [|[k v] pre IH]; intros m H Hw; cbn [app length wf ext_of] in *; [reflexivity|].
+  destruct H as [Hv [_ H]]. unfold upd at 1. destruct (w =? v) eqn:E; [lia|].
+  apply (IH (m - 1)); [assumption|lia].
+Qed.
+
+Lemma lit_true_ext_app nv0 pre c s a m :
+  wf nv0 m (pre ++ c) -> Z.abs a < m - Z.of_nat (length pre) ->
+  lit_true (ext_of (pre ++ c) s) a = lit_true (ext_of c s) a.
+Proof.
+  intros H Ha. unfold lit_true. destruct (0 <? a).
+  - apply (ext_of_app nv0 _ _ _ _ m H). lia.
+  - f_equal. apply (ext_of_app nv0 _ _ _ _ m H). lia.
+Qed.
+
+(** every cached variable carries the value of its key *)
+Lemma cache_sem nv0 c : forall n k v s,
+  wf nv0 n c -> In (k, v) c -> ext_of c s v = keval k (ext_of c s).
+Proof.
+  induction c as [|[k' v'] c IH]; intros n k v s H Hin; [destruct Hin|].
+  cbn [wf ext_of] in *. destruct H as [Hv [Ha H]].
+  assert (U : keval k' (upd (ext_of c s) v' (keval k' (ext_of c s))) = keval k' (ext_of c s)).
+  { apply keval_agree. intros a Hk. apply lit_true_upd. apply Ha in Hk. lia. }
+  destruct Hin as [E|Hin].
+  - inversion E. subst. rewrite U. unfold upd. now rewrite Z.eqb_refl.
+  - destruct (wf_in _ _ _ _ _ H Hin) as [R A].
+    unfold upd at 1. destruct (v =? v') eqn:E; [lia|].
+    rewrite (IH _ _ _ s H Hin). symmetry. apply keval_agree. intros a Hk. apply lit_true_upd.
+    apply A in Hk. lia.
+Qed.
+
+(** * State invariant *)
+Definition SInv (nv0 : Z) (s : tst) : Prop :=
+  wf nv0 (nextv s) (cache s) /\ ints (out s) = cls_of (cache s).
+
+Definition key_src (nv0 : Z) (L : list Z) (pre : list (key * Z)) : Prop :=
+  forall k v a, In (k, v) pre -> In a (kargs k) -> In a L \/ nv0 <= a.
+
+Lemma alloc_spec nv0 L k s r s' :
+  1 <= nv0 -> SInv nv0 s -> args_ok k (nextv s) ->
+  (forall a, In a (kargs k) -> In a L \/ nv0 <= a) ->
+  alloc k (kgate k) s = (r, s') ->
+  SInv nv0 s' /\ (exists pre, cache s' = pre ++ cache s /\ key_src nv0 L pre) /\
+  nv0 <= r < nextv s' /\
+  (forall t, ext_of (cache s') t r = keval k (ext_of (cache s') t)).
+Proof.
+  intros Hnv [W O] Ha Hsrc. unfold alloc, get.
+  destruct (lookup k (cache s)) as [v|] eqn:E.
+  - apply lookup_in in E. destruct (wf_in _ _ _ _ _ W E) as [R A].
+    replace (nextv s =? v) with false by lia. intros Q. inversion Q. subst r s'.
+    split; [now split|]. split; [exists []; split; [reflexivity|intros ? ? ? []]|].
+    split; [lia|]. intros t. now apply (cache_sem nv0 _ (nextv s)).
+  - rewrite Z.eqb_refl. intros Q. inversion Q. subst r s'. clear Q. unfold emit. cbn [cache nextv out cls_of].
+    assert (W' : wf nv0 (nextv s + 1) ((k, nextv s) :: cache s)).
+    { cbn [wf]. replace (nextv s + 1 - 1) with (nextv s) by lia. split; [reflexivity|split; assumption]. }
+    split; [split|].
+    + exact W'.
+    + cbn [cache out cls_of]. unfold ints in *. rewrite map_app, O. reflexivity.
+    + split.
+      * exists [(k, nextv s)]. split; [reflexivity|].
+        intros k' v' a [Q|[]] Hk. inversion Q. subst. now apply Hsrc.
+      * pose proof (wf_len _ _ _ W). split; [lia|]. intros t.
+        apply (cache_sem nv0 _ (nextv s + 1)); [exact W'|now left].
+Qed.
+
+Definition leaves_ok (f : fm) (nv0 : Z) : Prop := forall z, In z (leaves f) -> z <> 0 /\ Z.abs z < nv0.
+
+Definition rep_post (nv0 : Z) (L : list Z) (s : tst) (r : Z) (s' : tst) : Prop :=
+  SInv nv0 s' /\
+  (exists pre, cache s' = pre ++ cache s /\ key_src nv0 L pre) /\
+  r <> 0 /\ Z.abs r < nextv s' /\ (In r L \/ nv0 <= r).
+
+Lemma pre_nextv nv0 s s' pre :
+  SInv nv0 s -> SInv nv0 s' -> cache s' = pre ++ cache s ->
+  nextv s = nextv s' - Z.of_nat (length pre).
+Proof.
+  intros [W _] [W' _] E. rewrite E in W'. apply wf_app_split in W'.
+  apply wf_len in W. apply wf_len in W'. lia.
+Qed.
+
+Lemma lit_true_mono nv0 s s' pre t a :
+  SInv nv0 s -> SInv nv0 s' -> cache s' = pre ++ cache s -> Z.abs a < nextv s ->
+  lit_true (ext_of (cache s') t) a = lit_true (ext_of (cache s) t) a.
+Proof.
+  intros I I' E Ha. pose proof (pre_nextv _ _ _ _ I I' E) as N. destruct I' as [W' _].
+  rewrite E in *. apply (lit_true_ext_app nv0 _ _ _ _ (nextv s') W'). lia.
+Qed.
+
+Lemma key_src_incl nv0 L L' pre : incl L L' -> key_src nv0 L pre -> key_src nv0 L' pre.
+Proof. intros HL H k v a Hin Ha. destruct (H k v a Hin Ha); auto. Qed.
+
+Lemma key_src_app nv0 L p1 p2 : key_src nv0 L p1 -> key_src nv0 L p2 -> key_src nv0 L (p1 ++ p2).
+Proof. intros H1 H2 k v a Hin Ha. apply in_app_or in Hin. destruct Hin; eauto. Qed.
+
+(** the main invariant of [rep] *)
+Definition rep_spec (nv0 : Z) (f : fm) : Prop :=
+  forall s r s', SInv nv0 s -> leaves_ok f nv0 -> rep f s = (r, s') ->
+    rep_post nv0 (leaves f) s r s' /\
+    (forall t, lit_true (ext_of (cache s') t) r = eval t f).
+
+Definition reps_spec (nv0 : Z) (l : list fm) : Prop :=
+  forall s vs s', SInv nv0 s -> (forall f, In f l -> leaves_ok f nv0) -> reps l s = (vs, s') ->
+    SInv nv0 s' /\
+    (exists pre, cache s' = pre ++ cache s /\ key_src nv0 (flat_map leaves l) pre) /\
+    (forall a, In a vs -> a <> 0 /\ Z.abs a < nextv s' /\ (In a (flat_map leaves l) \/ nv0 <= a)) /\
+    (forall t, map (lit_true (ext_of (cache s') t)) vs = map (eval t) l).
+
+Lemma reps_spec_of nv0 l : 1 <= nv0 -> Forall (rep_spec nv0) l -> reps_spec nv0 l.
+Proof.
+  intros Hnv HF. induction HF as [|f l Hf HF IH]; intros s vs s' I HL; cbn [reps].
+  - intros Q. inversion Q. subst. split; [assumption|]. split.
+    + exists []. split; [reflexivity|intros ? ? ? []].
+    + split; [intros a []|reflexivity].
+  - destruct (rep f s) as [v s1] eqn:E1. destruct (reps l s1) as [vs' s2] eqn:E2.
+    intros Q. inversion Q. subst vs s'. clear Q.
+    destruct (Hf _ _ _ I (HL f (or_introl eq_refl)) E1) as [[I1 [[p1 [C1 K1]] [Hv0 [Hv1 Hv2]]]] S1].
+    destruct (IH _ _ _ I1 (fun g Hg => HL g (or_intror Hg)) E2) as [I2 [[p2 [C2 K2]] [A2 S2]]].
+    pose proof (pre_nextv _ _ _ _ I1 I2 C2) as N2.
+    split; [assumption|]. split; [|split].
+    + exists (p2 ++ p1). split; [rewrite C2, C1; now rewrite app_assoc|].
+      cbn [flat_map]. apply key_src_app.
+      * eapply key_src_incl; [|exact K2]. apply incl_appr, incl_refl.
+      * eapply key_src_incl; [|exact K1]. apply incl_appl, incl_refl.
+    + intros a [Ea|Ha].
+      * subst a. split; [assumption|]. split; [lia|]. cbn [flat_map]. rewrite in_app_iff. tauto.
+      * destruct (A2 a Ha) as [X [Y Z']]. split; [assumption|]. split; [assumption|].
+        cbn [flat_map]. rewrite in_app_iff. tauto.
+    + intros t. cbn [map]. rewrite S2. f_equal. rewrite <- S1.
+      apply (lit_true_mono nv0 s1 s2 p2); assumption.
+Qed.
+
+Lemma forallb_map_eq {A} (q : A -> bool) (f : Z -> bool) vs l :
+  map f vs = map q l -> forallb f vs = forallb q l.
+Proof.
+  revert l. induction vs as [|a vs IH]; intros [|x l] H; cbn in *; try discriminate; [reflexivity|].
+  injection H as H1 H2. rewrite H1. f_equal. now apply IH.
+Qed.
+
+Lemma existsb_map_eq {A} (q : A -> bool) (f : Z -> bool) vs l :
+  map f vs = map q l -> existsb f vs = existsb q l.
+Proof.
+  revert l. induction vs as [|a vs IH]; intros [|x l] H; cbn in *; try discriminate; [reflexivity|].
+  injection H as H1 H2. rewrite H1. f_equal. now apply IH.
+Qed.
+
+Lemma lit_true_ext_low nv0 n c t a :
+  1 <= nv0 -> wf nv0 n c -> Z.abs a < nv0 -> lit_true (ext_of c t) a = lit_true t a.
+Proof.
+  intros Hnv W Ha. unfold lit_true. destruct (0 <? a).
+  - apply (ext_of_out nv0 n); [assumption|assumption|lia].
+  - f_equal. apply (ext_of_out nv0 n); [assumption|assumption|lia].
+Qed.
+
+Lemma alloc_step nv0 L k s p1 s1 r s' :
+  1 <= nv0 -> SInv nv0 s -> SInv nv0 s1 -> cache s1 = p1 ++ cache s -> key_src nv0 L p1 ->
+  (forall a, In a (kargs k) -> a <> 0 /\ Z.abs a < nextv s1 /\ (In a L \/ nv0 <= a)) ->
+  alloc k (kgate k) s1 = (r, s') ->
+  rep_post nv0 L s r s' /\
+  (forall t, lit_true (ext_of (cache s') t) r = keval k (ext_of (cache s') t)) /\
+  (forall t a, Z.abs a < nextv s1 -> lit_true (ext_of (cache s') t) a = lit_true (ext_of (cache s1) t) a).
+Proof.
+  intros Hnv I I1 C1 K1 Hargs Q.
+  destruct (alloc_spec nv0 L k s1 r s' Hnv I1) as [I' [[p [C K]] [R S]]]; try assumption.
+  - intros a Ha. destruct (Hargs a Ha) as [X [Y _]]. now split.
+  - intros a Ha. now destruct (Hargs a Ha) as [_ [_ Z']].
+  - split; [|split].
+    + split; [assumption|]. split.
+      * exists (p ++ p1). split; [rewrite C, C1; now rewrite app_assoc|now apply key_src_app].
+      * split; [lia|]. split; [lia|]. right. lia.
+    + intros t. rewrite lit_true_pos by lia. apply S.
+    + intros t a Ha. now apply (lit_true_mono nv0 s1 s' p).
+Qed.
+
+Lemma leaves_ok_sub f g nv0 : incl (leaves g) (leaves f) -> leaves_ok f nv0 -> leaves_ok g nv0.
+Proof. intros H L z Hz. apply L. now apply H. Qed.
+
+Lemma rep_post_incl nv0 L L' s r s' : incl L L' -> rep_post nv0 L s r s' -> rep_post nv0 L' s r s'.
+Proof.
+  intros HL [I [[p [C K]] [A [B D]]]]. split; [assumption|]. split.
+  - exists p. split; [assumption|]. now apply (key_src_incl nv0 L).
+  - split; [assumption|]. split; [assumption|]. destruct D; auto.
+Qed.
+
+Lemma rep_correct nv0 : 1 <= nv0 -> forall f, rep_spec nv0 f.
+Proof.
+  intros Hnv f. induction f as [z|g IH|l IH|l IH|p q IHp IHq|p q IHp IHq] using fm_ind'.
+  - (* leaf *)
+    intros s r s' I HL Q. cbn [rep] in Q. inversion Q. subst r s'. clear Q.
+    destruct (HL z (or_introl eq_refl)) as [Z0 Z1]. pose proof (wf_len _ _ _ (proj1 I)) as N.
+    split.
+    + split; [assumption|]. split; [exists []; split; [reflexivity|intros ? ? ? []]|].
+      split; [assumption|]. split; [lia|]. left. now left.
+    + intros t. cbn [eval]. now apply (lit_true_ext_low nv0 (nextv s)); [|apply I|].
+  - (* Not *)
+    intros s r s' I HL Q. cbn [rep] in Q. destruct (rep g s) as [v s1] eqn:E1.
+    destruct (IH _ _ _ I HL E1) as [[I1 [[p1 [C1 K1]] [V0 [V1 V2]]]] S1].
+    change (gate_not v) with (kgate (KNot v)) in Q.
+    destruct (alloc_step nv0 (leaves (FNot g)) (KNot v) s p1 s1 r s' Hnv I I1 C1 K1) as [P [S M]]; [|exact Q|].
+    + intros a [<-|[]]. auto.
+    + split; [exact P|]. intros t. rewrite S. cbn [keval eval]. rewrite M by assumption. now rewrite S1.
+  - (* And *)
+    intros s r s' I HL Q. rewrite rep_and in Q. destruct (reps l s) as [vs s1] eqn:E1.
+    destruct (reps_spec_of nv0 l Hnv IH s vs s1 I) as [I1 [[p1 [C1 K1]] [A1 S1]]]; [|exact E1|].
+    { intros f Hf. apply (leaves_ok_sub (FAnd l)); [|assumption]. cbn [leaves]. intros z Hz.
+      apply in_flat_map. eauto. }
+    change (gate_and vs) with (kgate (KAnd vs)) in Q.
+    destruct (alloc_step nv0 (leaves (FAnd l)) (KAnd vs) s p1 s1 r s' Hnv I I1 C1 K1) as [P [S M]]; [|exact Q|].
+    + intros a Ha. apply A1. exact Ha.
+    + split; [exact P|]. intros t. rewrite S. cbn [keval eval].
+      apply forallb_map_eq. rewrite <- S1. apply map_ext_in. intros a Ha. apply M. now apply A1.
+  - (* Or *)
+    intros s r s' I HL Q. rewrite rep_or in Q. destruct (reps l s) as [vs s1] eqn:E1.
+    destruct (reps_spec_of nv0 l Hnv IH s vs s1 I) as [I1 [[p1 [C1 K1]] [A1 S1]]]; [|exact E1|].
+    { intros f Hf. apply (leaves_ok_sub (FOr l)); [|assumption]. cbn [leaves]. intros z Hz.
+      apply in_flat_map. eauto. }
+    change (gate_or vs) with (kgate (KOr vs)) in Q.
+    destruct (alloc_step nv0 (leaves (FOr l)) (KOr vs) s p1 s1 r s' Hnv I I1 C1 K1) as [P [S M]]; [|exact Q|].
+    + intros a Ha. apply A1. exact Ha.
+    + split; [exact P|]. intros t. rewrite S. cbn [keval eval].
+      apply existsb_map_eq. rewrite <- S1. apply map_ext_in. intros a Ha. apply M. now apply A1.
+  - (* If *)
+    intros s r s' I HL Q. cbn [rep] in Q.
+    destruct (rep p s) as [a s1] eqn:E1. destruct (rep q s1) as [b s2] eqn:E2.
+    assert (Lp : leaves_ok p nv0) by (apply (leaves_ok_sub (FIf p q)); [apply incl_appl, incl_refl|assumption]).
+    assert (Lq : leaves_ok q nv0) by (apply (leaves_ok_sub (FIf p q)); [apply incl_appr, incl_refl|assumption]).
+    destruct (IHp _ _ _ I Lp E1) as [[I1 [[p1 [C1 K1]] [A0 [A1 A2]]]] S1].
+    destruct (IHq _ _ _ I1 Lq E2) as [[I2 [[p2 [C2 K2]] [B0 [B1 B2]]]] S2].
+    pose proof (pre_nextv _ _ _ _ I1 I2 C2) as N2.
+    change (gate_if a b) with (kgate (KIf a b)) in Q.
+    destruct (alloc_step nv0 (leaves (FIf p q)) (KIf a b) s (p2 ++ p1) s2 r s' Hnv I I2) as [P [S M]]; [| | |exact Q|].
+    + rewrite C2, C1. now rewrite app_assoc.
+    + apply key_src_app; [apply (key_src_incl nv0 (leaves q))|apply (key_src_incl nv0 (leaves p))];
+        try assumption; [apply incl_appr|apply incl_appl]; apply incl_refl.
+    + cbn [leaves]. intros x [<-|[<-|[]]]; (split; [assumption|split; [lia|rewrite in_app_iff; tauto]]).
+    + split; [exact P|]. intros t. rewrite S. cbn [keval eval].
+      rewrite (M t a), (M t b) by lia. rewrite S2.
+      rewrite (lit_true_mono nv0 s1 s2 p2) by assumption. now rewrite S1.
+  - (* Iff *)
+    intros s r s' I HL Q. cbn [rep] in Q.
+    destruct (rep p s) as [a s1] eqn:E1. destruct (rep q s1) as [b s2] eqn:E2.
+    assert (Lp : leaves_ok p nv0) by (apply (leaves_ok_sub (FIff p q)); [apply incl_appl, incl_refl|assumption]).
+    assert (Lq : leaves_ok q nv0) by (apply (leaves_ok_sub (FIff p q)); [apply incl_appr, incl_refl|assumption]).
+    destruct (IHp _ _ _ I Lp E1) as [[I1 [[p1 [C1 K1]] [A0 [A1 A2]]]] S1].
+    destruct (IHq _ _ _ I1 Lq E2) as [[I2 [[p2 [C2 K2]] [B0 [B1 B2]]]] S2].
+    pose proof (pre_nextv _ _ _ _ I1 I2 C2) as N2.
+    change (gate_iff a b) with (kgate (KIff a b)) in Q.
+    destruct (alloc_step nv0 (leaves (FIff p q)) (KIff a b) s (p2 ++ p1) s2 r s' Hnv I I2) as [P [S M]]; [| | |exact Q|].
+    + rewrite C2, C1. now rewrite app_assoc.
+    + apply key_src_app; [apply (key_src_incl nv0 (leaves q))|apply (key_src_incl nv0 (leaves p))];
+        try assumption; [apply incl_appr|apply incl_appl]; apply incl_refl.
+    + cbn [leaves]. intros x [<-|[<-|[]]]; (split; [assumption|split; [lia|rewrite in_app_iff; tauto]]).
+    + split; [exact P|]. intros t. rewrite S. cbn [keval eval].
+      rewrite (M t a), (M t b) by lia. rewrite S2.
+      rewrite (lit_true_mono nv0 s1 s2 p2) by assumption. now rewrite S1.
+Qed.
+
+Lemma cls_of_in c : forall cl, In cl (cls_of c) -> exists k v, In (k, v) c /\ In cl (igate k v).
+Proof.
+  induction c as [|[k v] c IH]; intros cl H; cbn [cls_of] in H; [destruct H|].
+  apply in_app_or in H. destruct H as [H|H].
+  - destruct (IH _ H) as [k' [v' [X Y]]]. exists k', v'. split; [now right|assumption].
+  - exists k, v. split; [now left|assumption].
+Qed.
+
+Lemma SInv_init nv : SInv nv (init nv).
+Proof. split; reflexivity. Qed.
+
+(** * Main theorem *)
+Theorem tseitin_correct f nv cs nv' :
+  1 <= nv -> (forall z, In z (leaves f) -> z <> 0 /\ Z.abs z < nv) ->
+  tseitin f nv = (cs, nv') ->
+  exists defs r ext,
+    cs = defs ++ [[r]] /\ nv <= nv' /\
+    Defines (nv - 1) (nv' - 1) defs ext /\
+    (forall s, sat (ext s) cs = eval s f) /\
+    (forall c l, In c cs -> In l c ->
+       (In l (leaves f) \/ In (- l) (leaves f)) \/ nv <= Z.abs l < nv').
+Proof.
+  intros Hnv HL. unfold tseitin. destruct (rep f (init nv)) as [r s] eqn:E. intros Q. inversion Q. subst cs nv'. clear Q.
+  destruct (rep_correct nv Hnv f (init nv) r s (SInv_init nv) HL E) as [[I [[pre [C K]] [R0 [R1 R2]]]] S].
+  cbn [init cache] in C. rewrite app_nil_r in C. destruct I as [W O].
+  pose proof (wf_len _ _ _ W) as N. pose proof (wf_defines _ _ _ Hnv W) as D.
+  exists (cls_of (cache s)), r, (ext_of (cache s)).
+  split; [fold (ints (out s)); now rewrite O|]. split; [lia|]. split; [exact D|]. split.
+  - intros t. fold (ints (out s)). rewrite O, sat_app, (defines_sat_ext _ _ _ _ t D).
+    cbn [sat forallb csat existsb andb]. rewrite S. now rewrite orb_false_r, andb_true_r.
+  - intros c l Hc Hl. fold (ints (out s)) in Hc. rewrite O in Hc. apply in_app_or in Hc. destruct Hc as [Hc|[Hc|[]]].
+    + destruct (cls_of_in _ _ Hc) as [k [v [Hkv Hg]]]. destruct (wf_in _ _ _ _ _ W Hkv) as [Rv Av].
+      destruct (igate_lits _ _ _ _ Hg Hl) as [[El|El]|[El|El]].
+      * right. lia.
+      * right. lia.
+      * rewrite C in Hkv. destruct (K k v l Hkv El) as [X|X]; [left; now left|].
+        apply Av in El. right. lia.
+      * rewrite C in Hkv. destruct (K k v (- l) Hkv El) as [X|X]; [left; now right|].
+        apply Av in El. right. lia.
+    + subst c. destruct Hl as [<-|[]]. destruct R2 as [X|X]; [left; now left|right; lia].
+Qed.
+
+Lemma eval_agree n s t f :
+  agree_upto n s t -> (forall z, In z (leaves f) -> 0 < Z.abs z <= n) -> eval s f = eval t f.
+Proof.
+  intros A. induction f as [z|g IH|l IH|l IH|p q IHp IHq|p q IHp IHq] using fm_ind'; intros HL; cbn [eval leaves] in *.
+  - apply (lit_true_agree n); [assumption|]. apply HL. now left.
+  - f_equal. now apply IH.
+  - induction IH as [|x l Hx Hl IH]; [reflexivity|]. cbn [forallb flat_map] in *. f_equal.
+    + apply Hx. intros z Hz. apply HL. apply in_or_app. now left.
+    + apply IH. intros z Hz. apply HL. apply in_or_app. now right.
+  - induction IH as [|x l Hx Hl IH]; [reflexivity|]. cbn [existsb flat_map] in *. f_equal.
+    + apply Hx. intros z Hz. apply HL. apply in_or_app. now left.
+    + apply IH. intros z Hz. apply HL. apply in_or_app. now right.
+  - f_equal; [apply IHp|apply IHq]; intros z Hz; apply HL; apply in_or_app; auto.
+  - f_equal; [apply IHp|apply IHq]; intros z Hz; apply HL; apply in_or_app; auto.
+Qed.
+
+(** The same in terms of models: the solutions of the clauses, restricted to
+    the original variables [1..nv-1], are exactly the models of the formula,
+    and each solution is determined by that restriction. *)
+Theorem tseitin_models f nv cs nv' :
+  1 <= nv -> (forall z, In z (leaves f) -> z <> 0 /\ Z.abs z < nv) ->
+  tseitin f nv = (cs, nv') ->
+  (forall s, (exists t, agree_upto (nv - 1) s t /\ sat t cs = true) <-> eval s f = true) /\
+  (forall t t', agree_upto (nv - 1) t t' -> sat t cs = true -> sat t' cs = true ->
+                agree_upto (nv' - 1) t t') /\
+  vars_upto (nv' - 1) cs.
+Proof.
+  intros Hnv HL Q. destruct (tseitin_correct f nv cs nv' Hnv HL Q) as [defs [r [ext [E [Hle [D [S V]]]]]]].
+  assert (VU : vars_upto (nv' - 1) cs).
+  { intros c l Hc Hl. destruct (V c l Hc Hl) as [[X|X]|X].
+    - apply HL in X. lia.
+    - apply HL in X. lia.
+    - lia. }
+  assert (HL' : forall z, In z (leaves f) -> 0 < Z.abs z <= nv - 1) by (intros z Hz; apply HL in Hz; lia).
+  split; [|split; [|exact VU]].
+  - intros s. split.
+    + intros [t [A St]]. rewrite (eval_agree (nv - 1) s t f A HL'). rewrite <- S.
+      rewrite <- St. apply (sat_agree (nv' - 1)); [|exact VU].
+      assert (Sd : sat t defs = true) by (rewrite E, sat_app in St; now apply andb_true_iff in St).
+      intros v Hv. destruct (Z_lt_le_dec (nv - 1) v).
+      * symmetry. apply (proj1 (def_sat _ _ _ _ D t) Sd). lia.
+      * apply (def_out _ _ _ _ D). lia.
+    + intros Ev. exists (ext s). split; [|now rewrite S].
+      apply (defines_ext_agree _ _ _ _ s D). lia.
+  - intros t t' A St St'. apply (defines_unique _ _ _ _ _ _ D A).
+    + rewrite E, sat_app in St. now apply andb_true_iff in St.
+    + rewrite E, sat_app in St'. now apply andb_true_iff in St'.
+Qed.
+
+(** * The tree returned by the code and its [cnf_to_json] image *)
+Lemma mapM_app {A B} (f : A -> res B) l1 l2 r1 r2 :
+  mapM f l1 = Ok r1 -> mapM f l2 = Ok r2 -> mapM f (l1 ++ l2) = Ok (r1 ++ r2).
+Proof.
+  revert r1. induction l1 as [|x l1 IH]; intros r1 H1 H2; cbn [mapM app] in *.
+  - inversion H1. assumption.
+  - destruct (f x) as [y|e]; cbn [rbind] in *; [|discriminate].
+    destruct (mapM f l1) as [ys|e]; cbn [rbind] in *; [|discriminate].
+    inversion H1. rewrite (IH ys eq_refl H2). reflexivity.
+Qed.
+
+Lemma json_lits c : mapM json_lit (map slit_nf c) = Ok (map slit_int c).
+Proof.
+  induction c as [|[z|z] c IH]; cbn [map mapM slit_nf slit_int json_lit rbind]; [reflexivity| |];
+    rewrite IH; reflexivity.
+Qed.
+
+Lemma json_clauses cs :
+  mapM json_clause (map (fun c => NOr (map slit_nf c)) cs) = Ok (map (map slit_int) cs).
+Proof.
+  induction cs as [|c cs IH]; cbn [map mapM json_clause rbind]; [reflexivity|].
+  rewrite json_lits. cbn [rbind]. rewrite IH. reflexivity.
+Qed.
+
+Theorem tseitin_json f nv :
+  cnf_to_json [fst (tseitin_tree f nv)] = Ok (fst (tseitin f nv)) /\
+  snd (tseitin_tree f nv) = snd (tseitin f nv) /\
+  exists cls r, fst (tseitin_tree f nv) = NAnd (map (fun c => NOr (map slit_nf c)) cls ++ [NVar r]).
+Proof.
+  unfold tseitin_tree, tseitin. destruct (rep f (init nv)) as [r s]. cbn [fst snd]. split; [|split].
+  - cbn [cnf_to_json json_and].
+    rewrite (mapM_app json_clause _ [NVar r] _ [[r]] (json_clauses (out s)) eq_refl).
+    cbn [rbind]. now rewrite app_nil_r.
+  - reflexivity.
+  - now exists (out s), r.
+Qed.
